@@ -3,6 +3,7 @@
    64-bit key hash of a line, HashCallback(RangeFields(line, -f, -d)); the file
    index is [keyhash line mod n] (model of preprocess/shard_main.cc main()). *)
 From PP Require Import Shard.ShardDefs Shard.ShardProofs Compress.CompressDefs Compress.CompressProofs.
+From PP Require Import Shard.ShardConcrete Shard.ShardConcreteProofs Fields.FieldsDefs.
 From Coq Require Import Permutation.
 Local Open Scope N_scope.
 
@@ -51,17 +52,12 @@ Theorem C06_names_distinct :
 Proof. exact names_distinct. Qed.
 Print Assumptions C06_names_distinct.
 
-(* full statement: names in index order are strictly increasing byte strings *)
-Definition C06_names_sorted_statement : Prop :=
+(* names in index order are strictly increasing byte strings (for every number an
+   unsigned int can hold): padded decimals of equal width compare like the numbers *)
+Theorem C06_names_sorted :
   forall (prefix : list Z) (number : N), number < 4294967296 -> sortedb (names prefix number) = true.
-(* PARTIAL: checked by computation for every number up to 130 and for 999, 1000, 1001
-   (widths 0..4 and the boundaries 10, 100, 1000); missing: the induction over the decimal
-   rendering that lifts it to all numbers (equal width below 10^digits, and
-   lexicographic = numeric order on equal-width digit strings). *)
-Theorem C06_names_sorted_partial :
-  forallb (fun k => sortedb (names [115; 46]%Z (N.of_nat k))) (seq 0 131 ++ [999; 1000; 1001]%nat) = true.
-Proof. vm_compute. reflexivity. Qed.
-Print Assumptions C06_names_sorted_partial.
+Proof. exact names_sorted. Qed.
+Print Assumptions C06_names_sorted.
 
 (* every output file -- also of a shard that received no line -- is a non-empty
    sequence of complete gzip/bzip2 members expanding to exactly the shard's lines
@@ -86,6 +82,69 @@ Theorem C06_every_file_valid :
         kstream member k file content /\ file <> [].
 Proof. exact shard_files_valid. Qed.
 Print Assumptions C06_every_file_valid.
+
+(* ---- the key hash instantiated with the models of C10 (RangeFields) and C14
+   (MurmurHash64A, HashCallback chaining): Shard/ShardConcrete.v.  The file index is
+   a function of the key pieces and n only. *)
+Theorem C06_index_depends_only_on_key_pieces :
+  forall (ranges : list range) (d : Z) (n : N) (l1 l2 : list Z),
+    range_fields l1 ranges d = range_fields l2 ranges d ->
+    index (field_keyhash ranges d) n l1 = index (field_keyhash ranges d) n l2.
+Proof. exact index_depends_on_pieces. Qed.
+Print Assumptions C06_index_depends_only_on_key_pieces.
+
+Theorem C06_concrete_tool_partition :
+  forall spec d n input outs, 0 < n ->
+    shard_tool_fields spec d n input = Some outs ->
+    exists ranges, parse_key_spec spec = Some ranges /\
+      Permutation (concat (shard (field_keyhash ranges d) n (records 10%Z shard_strip_cr input)))
+                  (records 10%Z shard_strip_cr input) /\
+      outs = map shard_bytes (shard (field_keyhash ranges d) n (records 10%Z shard_strip_cr input)).
+Proof. exact concrete_partition. Qed.
+Print Assumptions C06_concrete_tool_partition.
+
+(* `printf 'b\tx\na\ty\nb\tz\n' | shard -f 1 s0 s1 s2`, computed by the models of all three properties *)
+Example C06_nonvacuous_concrete_tool :
+  exists o0 o1 o2,
+    shard_tool_fields [49]%Z 9%Z 3 [98;9;120;10; 97;9;121;10; 98;9;122;10]%Z = Some [o0; o1; o2] /\
+    (o0 ++ o1 ++ o2)%list <> [] /\
+    (In [98;9;120;10;98;9;122;10]%Z [o0; o1; o2]).
+Proof. vm_compute. eexists _, _, _. split; [reflexivity|]. split; [discriminate|]. simpl. tauto. Qed.
+
+(* option handling (ParseArgs): whatever is accepted has at least one output, so the
+   modulus of the shard index is never 0; with --prefix/--number the outputs are
+   exactly the generated names and the number is positive *)
+Theorem C06_accepted_arguments_have_outputs :
+  forall o ranges outs c, shard_parse_args o = Some (ranges, outs, c) -> outs <> [].
+Proof. exact parse_args_nonempty. Qed.
+Print Assumptions C06_accepted_arguments_have_outputs.
+
+Theorem C06_prefix_number_gives_names :
+  forall o ranges outs c p n,
+    o_outputs o = [] -> o_prefix o = Some p -> o_number o = Some n ->
+    shard_parse_args o = Some (ranges, outs, c) -> outs = names p n /\ 0 < n.
+Proof. exact parse_args_prefix_names. Qed.
+Print Assumptions C06_prefix_number_gives_names.
+
+(* ---- open finding F-C06-cr-stripped.  Full statement (what the property text asks for):
+   the output lines are the input lines byte for byte. *)
+Definition C06_lines_bytewise_statement : Prop :=
+  forall (keyhash : list Z -> N) (n : N) (input : list Z), 0 < n ->
+    Permutation (concat (shard keyhash n (records 10%Z shard_strip_cr input))) (records 10%Z false input).
+(* REFUTED on the unchanged code: shard reads with FilePiece's default strip_cr = true
+   (regenerated flag), "a\r\n" comes out as "a\n".  Not repaired: dedupe reads the same way,
+   changing shard alone would separate keys that dedupe identifies. *)
+Theorem C06_lines_bytewise_refuted :
+  exists (keyhash : list Z -> N) n input, 0 < n /\
+    ~ Permutation (concat (shard keyhash n (records 10%Z shard_strip_cr input))) (records 10%Z false input).
+Proof. exact shard_lines_bytewise_refuted. Qed.
+Print Assumptions C06_lines_bytewise_refuted.
+(* PARTIAL: it holds for every input without a CR directly before a LF *)
+Theorem C06_lines_bytewise_partial :
+  forall (keyhash : list Z -> N) (n : N) (input : list Z), 0 < n -> no_crlf input = true ->
+    Permutation (concat (shard keyhash n (records 10%Z shard_strip_cr input))) (records 10%Z false input).
+Proof. exact shard_lines_bytewise_partial. Qed.
+Print Assumptions C06_lines_bytewise_partial.
 
 Example C06_nonvacuous_shard :
   let kh := fun l : list Z => match l with [] => 0 | (b :: _)%list => Z.to_N b end in
